@@ -153,7 +153,7 @@ def mk_discr(t):
 
 
 def place_root(pl):
-    while pl[0] in ("field", "index", "down", "cidx", "subslice"):
+    while pl[0] in ("field", "index", "down", "cidx", "subslice", "range"):
         pl = pl[1]
     return pl
 
@@ -164,7 +164,7 @@ def place_is_local(pl):
 
 def place_chain(pl):
     ch = []
-    while pl[0] in ("field", "index", "down", "cidx", "subslice"):
+    while pl[0] in ("field", "index", "down", "cidx", "subslice", "range"):
         ch.append(pl)
         pl = pl[1]
     ch.append(pl)
@@ -177,7 +177,7 @@ def is_prefix(p, q):
     while True:
         if p == q:
             return True
-        if q[0] in ("field", "index", "down", "cidx", "subslice"):
+        if q[0] in ("field", "index", "down", "cidx", "subslice", "range"):
             q = q[1]
         else:
             return False
@@ -187,8 +187,10 @@ def places_disjoint(p, q):
     """provably non-overlapping places (syntactic)"""
     cp, cq = place_chain(p), place_chain(q)
     if cp[0] != cq[0]:
-        # different roots: two distinct locals are disjoint; anything through pointers may alias
-        if cp[0][0] == "local" and cq[0][0] == "local":
+        # different roots: two distinct locals are disjoint, and so is a local from anything behind a
+        # pointer (derefs of references to locals are resolved to the local itself by place_term);
+        # two different pointers may alias
+        if cp[0][0] in ("local", "constval") or cq[0][0] in ("local", "constval"):
             return True
         return False
     for a, b in zip(cp[1:], cq[1:]):
@@ -361,6 +363,15 @@ class Interp:
         self.body = body
         self.program = program
         self.inline = inline or set()
+        self.record_index_reads = False
+        self._upvar_refs = set()
+        self._env_place = None
+        if body.is_closure and param_names is not None:
+            ut = body.upvar_types()
+            self._upvar_refs = {k for k, t in ut.items() if (t or "").startswith("&")}
+            nm = body.local_names().get(1) if param_names else None
+            self._env_place = ("deref", ("param", 1, nm))
+        self._cur_bb = None
         self.hooks = hooks or {}
         self.uid_prefix = uid_prefix
         self.parent = parent
@@ -430,48 +441,61 @@ class Interp:
         locs, _ = self.loop_mod[head]
         fr = []
 
+        def first_deref(p):
+            for n, e in enumerate(p["p"]):
+                if e[0] == "deref":
+                    return n
+            return None
+
         def resolve(p, depth=0):
-            # a MIR place (json) whose base local is loop-invariant -> place term
+            """MIR place (json) -> place term valid for the whole loop, ('local', n) for function-local
+            memory, or None when it cannot be bounded"""
+            n = first_deref(p)
+            if n is None:
+                return ("local", p["l"])
+            if depth > 6:
+                return None
             base = p["l"]
-            if base in locs and base not in self.addr_taken_mut:
-                # defined inside the loop: follow a single reference definition
-                if depth > 4:
-                    return None
-                defs = []
-                for bb in blks:
-                    for s_ in self.body.blocks[bb]["stmts"]:
-                        if s_["k"] == "assign" and s_["place"]["l"] == base and not s_["place"]["p"]:
-                            defs.append(s_["rv"])
-                    tm = self.body.blocks[bb]["term"]
-                    if tm["k"] == "call" and tm["dest"]["l"] == base:
-                        return None
-                if len(defs) != 1:
-                    return None
-                rv = defs[0]
-                if rv["k"] in ("ref", "rawptr"):
-                    inner = resolve(rv["place"], depth + 1)
-                    if inner is None:
-                        return None
-                    # p = (*base).proj...: strip the leading deref
-                    if p["p"] and p["p"][0][0] == "deref":
-                        rest = {"l": -1, "p": p["p"][1:]}
-                        return self._extend(inner, rest, st, locs)
-                    return None
-                if rv["k"] == "use" and rv["op"]["k"] in ("copy", "move"):
-                    q = rv["op"]["place"]
-                    return resolve({"l": q["l"], "p": q["p"] + p["p"]}, depth + 1)
-                if rv["k"] == "cast" and rv["op"]["k"] in ("copy", "move"):
-                    q = rv["op"]["place"]
-                    return resolve({"l": q["l"], "p": q["p"] + p["p"]}, depth + 1)
+            pre, rest = p["p"][:n], p["p"][n + 1 :]
+            if base not in locs:
+                q = {"l": base, "p": []}
+                for e in p["p"]:
+                    if e[0] == "index" and e[1] in locs:
+                        break  # loop-variant index: the whole indexed aggregate
+                    q["p"].append(e)
+                return self.place_term(st, q)
+            if pre:
                 return None
-            if base in locs:
+            defs = []
+            for bb in blks:
+                for s_ in self.body.blocks[bb]["stmts"]:
+                    if s_["k"] == "assign" and s_["place"]["l"] == base and not s_["place"]["p"]:
+                        defs.append(("rv", s_["rv"]))
+                tm = self.body.blocks[bb]["term"]
+                if tm["k"] == "call" and tm["dest"]["l"] == base and not tm["dest"]["p"]:
+                    defs.append(("call", tm))
+            if len(defs) != 1:
                 return None
-            for e in p["p"]:
-                if e[0] == "index" and e[1] in locs:
-                    # loop-variant index: the whole indexed aggregate
-                    cut = p["p"][: p["p"].index(e)]
-                    return self.place_term(st, {"l": base, "p": cut})
-            return self.place_term(st, p)
+            kind, d = defs[0]
+            if kind == "call":
+                if not self._static_pure(d):
+                    return None
+                for a in d["args"]:
+                    if a["k"] in ("copy", "move"):
+                        ty = a["place"].get("ty") or ""
+                        if ty.startswith(("&", "*")):
+                            return resolve({"l": a["place"]["l"], "p": a["place"]["p"] + [["deref"]]}, depth + 1)
+                return None
+            rv = d
+            if rv["k"] in ("ref", "rawptr"):
+                inner = resolve(rv["place"], depth + 1)
+                if inner is None or inner[0] == "local":
+                    return inner
+                return self._extend(inner, {"p": rest}, st, locs)
+            if rv["k"] in ("use", "cast") and rv["op"]["k"] in ("copy", "move"):
+                q = rv["op"]["place"]
+                return resolve({"l": q["l"], "p": q["p"] + [["deref"]] + rest}, depth + 1)
+            return None
 
         for bb in blks:
             blk = self.body.blocks[bb]
@@ -480,7 +504,8 @@ class Interp:
                     r = resolve(s_["place"])
                     if r is None:
                         return None
-                    fr.append(r)
+                    if r[0] != "local":
+                        fr.append(r)
             tm = blk["term"]
             if tm["k"] == "call" and tm["target"] is not None and not self._static_pure(tm):
                 for a in tm["args"]:
@@ -492,12 +517,14 @@ class Interp:
                     r = resolve({"l": a["place"]["l"], "p": a["place"]["p"] + [["deref"]]})
                     if r is None:
                         return None
-                    fr.append(r)
+                    if r[0] != "local":
+                        fr.append(r)
                 if any(e[0] == "deref" for e in tm["dest"]["p"]):
                     r = resolve(tm["dest"])
                     if r is None:
                         return None
-                    fr.append(r)
+                    if r[0] != "local":
+                        fr.append(r)
             elif tm["k"] == "asm":
                 return None
         return tuple(fr)
@@ -522,24 +549,38 @@ class Interp:
         return bb if not self.uid_prefix else self.uid_prefix + (bb,)
 
     def frame_of(self, args, argtys=None):
-        """places a callee can reach (and so possibly write) through its arguments; None = anything"""
+        """places a callee can reach (and so possibly write) through its arguments; None = anything.
+        References and aggregates of references are followed structurally; an opaque value contributes
+        what it points to when its type is a pointer type and nothing otherwise (a value of a generic
+        type T returned by another call does not borrow from the caller's places)."""
         fr = []
+
+        def walk(a, ty, depth=0):
+            if not isinstance(a, tuple) or not a or depth > 6:
+                return True
+            h = a[0]
+            if h in ("ref", "optref"):
+                fr.append(a[1])
+                return True
+            if h == "agg":
+                for x in a[2]:
+                    if not walk(x, None, depth + 1):
+                        return False
+                return True
+            if h in ("int", "unit", "cst", "gparam", "fnitem", "bin", "un", "fbin", "fcmp", "wbin", "len", "max", "min", "discr", "rnext", "elem", "rangeiter", "repeat"):
+                return True
+            ty = ty or self.tys.get(a) or ""
+            if ty.startswith(("&", "*")) or ty.startswith(("std::boxed::Box<", "alloc::boxed::Box<")):
+                fr.append(("deref", a))
+                return True
+            if "&mut" in ty or "*mut" in ty or "dyn " in ty:
+                return False
+            return True
+
         for n, a in enumerate(args):
-            if not isinstance(a, tuple) or not a:
-                continue
-            found = False
-            for s_ in subterms(a):
-                if s_[0] in ("ref", "optref"):
-                    fr.append(s_[1])
-                    found = True
-            if not found:
-                ty = (argtys[n] if argtys and n < len(argtys) else None) or self.tys.get(a) or ""
-                if ty.startswith(("&", "*", "std::boxed::Box<", "alloc::boxed::Box<")):
-                    fr.append(("deref", a))
-                elif a[0] in ("param", "call", "load", "proj", "phi", "out") and not ty:
-                    return None
-                elif any(x in ty for x in ("&mut", "*mut", "Box<", "dyn ")) or "{closure" in ty:
-                    return None
+            ty = argtys[n] if argtys and n < len(argtys) else None
+            if not walk(a, ty):
+                return None
         return tuple(fr)
 
     def _static_pure(self, t):
@@ -581,6 +622,8 @@ class Interp:
             return self.read_local(st, pl[1])
         if k == "constval":
             return pl[1]
+        if k == "field" and self._upvar_refs and pl[1] == self._env_place and pl[2] in self._upvar_refs:
+            return ("upvar", pl[2])  # a captured reference never changes during the closure's execution
         if place_is_local(pl):
             base = self.read_pl(st, pl[1])
             if k == "field":
@@ -646,7 +689,7 @@ class Interp:
             before = (st.facts, st.mem, st.path)
             st.mem = ("store", st.mem, pl, val)
             if record:
-                st.add_event(Event("store", bb, idx, place=pl, val=val, state=before))
+                st.add_event(Event("store", bb, idx, place=pl, val=val, state=before, extra={"in": self.body.path if self.parent is not None else None}))
 
     def _update(self, base, chain, val):
         c = chain[0]
@@ -736,6 +779,10 @@ class Interp:
         if k in ("copy", "move"):
             pl = self.place_term(st, o["place"])
             v = self.read_pl(st, pl)
+            if self.record_index_reads and not place_is_local(pl):
+                for c in place_chain(pl):
+                    if c[0] == "index":
+                        st.add_event(Event("idxread", self._cur_bb, place=c, val=c[2], state=(st.facts, st.mem, st.path), extra={"in": self.body.path if self.parent is not None else None}))
             ty = o["place"].get("ty")
             if ty and isinstance(v, tuple) and v not in self.tys:
                 self.tys[v] = ty
@@ -752,7 +799,12 @@ class Interp:
         if k == "use":
             return self.operand(st, rv["op"])
         if k in ("ref", "rawptr"):
-            return ("ref", self.place_term(st, rv["place"]))
+            pl = self.place_term(st, rv["place"])
+            if self.record_index_reads and not place_is_local(pl) and rv.get("bk") != "fake":
+                for c in place_chain(pl):
+                    if c[0] == "index":
+                        st.add_event(Event("idxread", bb, place=c, val=c[2], state=(st.facts, st.mem, st.path)))
+            return ("ref", pl)
         if k == "copy_for_deref":
             return self.read_pl(st, self.place_term(st, rv["place"]))
         if k == "bin":
@@ -841,6 +893,7 @@ class Interp:
         res = None
         handled = False
         mem_before = st.mem
+        argtys0 = [effects._op_ty(self.body, a) for a in t["args"]]
         argvals = tuple(self.read_pl(st, a[1]) if (isinstance(a, tuple) and a and a[0] == "ref" and place_is_local(a[1])) else None for a in args)
         ax = self.extra_axioms.get(key) or self.extra_axioms.get(gpath) or AXIOMS.get(key) or AXIOMS.get(gpath)
         if ax is None and trait:
@@ -866,7 +919,7 @@ class Interp:
         if not handled:
             if pure:
                 # closures are compared by their canonical signature, not by identity
-                cargs = tuple(_canon_closures(a) for a in args)
+                cargs = tuple(_canon_closures(self._ref_values(st, a)) for a in args)
                 places = [s_[1] for a in args for s_ in subterms(a) if s_[0] in ("ref", "optref")]
                 reads_mem = bool(places) or any(mentions(a, lambda s: s[0] in ("load", "deref")) for a in args)
                 if not reads_mem:
@@ -875,7 +928,7 @@ class Interp:
                     res = ("call", key, cargs + (("mem", self.reduce_mem(st.mem, places)),), None)
             else:
                 res = ("call", key, args, uid)
-        ev = Event("call", bb, callee=key, fn=fn, args=args, res=res, state=(st.facts, mem_before, st.path), extra={"pure": pure, "handled": handled, "dest": t["dest"], "name": name, "trait": trait, "gpath": gpath, "argvals": argvals, "in": self.body.path if self.parent is not None else None, "uid": uid})
+        ev = Event("call", bb, callee=key, fn=fn, args=args, res=res, state=(st.facts, mem_before, st.path), extra={"pure": pure, "handled": handled, "dest": t["dest"], "name": name, "trait": trait, "gpath": gpath, "argvals": argvals, "argtys": argtys0, "in": self.body.path if self.parent is not None else None, "uid": uid})
         st.add_event(ev)
         tdef = (fn.get("resolved") or fn).get("def") if "indirect" not in fn else None
         if not handled and tdef in self.inline and t["target"] is not None:
@@ -907,6 +960,7 @@ class Interp:
             root = root.parent
         sub = Interp(callee, self.program, axioms=self.extra_axioms, pure=self.extra_pure, inline=self.inline, hooks=self.hooks, uid_prefix=self.uid_prefix + (bb,), parent=self)
         sub.tys = self.tys
+        sub.record_index_reads = self.record_index_reads
         env = {}
         for i, a in enumerate(args):
             env[i + 1] = a
@@ -930,6 +984,12 @@ class Interp:
         self.inlined_subs = getattr(self, "inlined_subs", [])
         self.inlined_subs.append(sub)
         return outs
+
+    def _ref_values(self, st, a):
+        """references to locals are replaced by references to their current value (for term identity)"""
+        if isinstance(a, tuple) and a and a[0] == "ref" and place_is_local(a[1]):
+            return ("ref", ("constval", self.read_pl(st, a[1])))
+        return a
 
     def reduce_mem(self, mem, places):
         """drop the most recent stores that cannot be seen through `places` (ownership axiom:
@@ -987,7 +1047,7 @@ class Interp:
                 if mem:
                     st.mem = ("mphi", self.uid(bb), st.mem, frame)
                 st.active = st.active + (bb,)
-                st.add_event(Event("loop", bb))
+                st.add_event(Event("loop", bb, extra={"in": self.body.path if self.parent is not None else None}))
                 h = self.hooks.get("loop_head")
                 if h is not None:
                     h(self, st, bb)
@@ -1019,6 +1079,7 @@ class Interp:
                 self.write_pl(st, pl, ("setdiscr", self.read_pl(st, pl), s["variant"]), bb, idx)
 
     def step_block(self, bb, st):
+        self._cur_bb = bb
         self.exec_stmts(bb, st)
         blk = self.body.blocks[bb]
         t = blk["term"]
@@ -1437,5 +1498,7 @@ PURE_FNS = {
 PURE_PREFIXES = ("core::num::<impl ", "std::ops::Range", "core::ops::Range", "core::f64::<impl f64>::", "core::f32::<impl f32>::", "std::f64::<impl f64>::", "std::f32::<impl f32>::")
 
 
-def analyse(body, program=None, **kw):
-    return Interp(body, program, **kw).run()
+def analyse(body, program=None, record_index_reads=False, **kw):
+    I = Interp(body, program, **kw)
+    I.record_index_reads = record_index_reads
+    return I.run()
